@@ -34,10 +34,12 @@ def __setitem__(self, i, v):
         raise IndexError("index out of range")
     if i < 0:
         i = len(self) + i
-    label = self.order[i]
-    self.frames[i] = v
     if "order_label" not in v.metadata:
+        label = self.order[i]          # only an unlabelled frame needs the order string (looked up before the store)
+        self.frames[i] = v
         v.add_metadata({"order_label": label})
+    else:
+        self.frames[i] = v
 ''', ('substores', 'calls', 'raises')),
     OC + 'insert': ('''
 def insert(self, i, v):
@@ -222,6 +224,30 @@ def run(ctx):
            'leaves no label behind)', si, bool(st_ev) and bool(lab_ev) and all(st_ev[0].seq < l.seq for l in lab_ev),
            {'store': [e.text() for e in st_ev], 'labelling': [e.text() for e in lab_ev]},
            node=(lab_ev[0].node if lab_ev else si.node), construct='add_metadata after self.frames[i] = v')
+    # the order string says which label a NOT-YET-LABELLED frame gets; a frame that carries its label needs none, so storing it
+    # must not depend on the order string at all (a cadence may be longer than its order string: a list accepts the frame)
+    for short in (OC + '__setitem__', OC + 'insert'):
+        fo = ctx.func(short)
+        ro, Io = ctx.run(fo, expand=False, max_depth=0, no_inline=NO_INLINE)
+        order_t = T.mk_attr(sym('self'), 'order')
+        unl = ctx.spec(fo, '"order_label" not in v.metadata', I=ctx.interp(expand=False))
+
+        def reads_order(t):
+            return any(a.kind == 'sub' and a.args[0].key == order_t.key for a in T.all_atoms(t).values())
+        uses = []
+        for e in Io.events:
+            vals = []
+            if e.kind == 'store':
+                vals = [e.data.get('value')]
+            elif e.kind == 'call':
+                vals = list(e.data.get('args', [])) + [v_ for _, v_ in e.data.get('kwargs', [])]
+            if any(v_ is not None and reads_order(v_) for v_ in vals):
+                uses.append(e)
+        bad = [e for e in uses if T.compare(T.mk_and([e.cond(), T.mk_not(unl)]), T.FALSE)[0] != T.EQUAL]
+        ctx.ob('GUARDDOM', f'{fo.name}: the order string is consulted only for a frame that still needs a label (an already labelled '
+               'frame is stored like in a list, whatever the order string)', fo, not bad,
+               {'order_lookups': [(e.text()[:60], pretty(e.cond())[:80]) for e in uses]},
+               node=(bad[0].node if bad else fo.node), construct=(bad[0].text()[:70] if bad else f'{fo.name}: self.order[...]'))
     # the guard's attribute list must at least contain the resolution, size and lower band edge
     ctx.clause = 'D2'
     r, I = ctx.run(guard, expand=False, max_depth=0)
